@@ -233,5 +233,5 @@ def build(tier):
                         "(AwesomeVersion is not encodable)"],
         "outside": ["payloads longer than the stated shapes", "version payloads outside the grid"],
         "stubs": ["logging -> no-op", "AwesomeVersion native on concrete strings"],
-        "budget_s": 1200 if q else 5400,
+        "budget_s": 2400 if q else 10800,
     }
